@@ -191,8 +191,20 @@ func OSFilePtrT() *Ty {
 
 // ---- composites -----------------------------------------------------------------------
 
+// Nullable: some values of the type have the JSON encoding null.
+func (t *Ty) Nullable() bool {
+	switch t.FK {
+	case "ptr", "slice", "bytes", "map", "option", "any", "iface", "seq", "func", "chan", "either":
+		return true
+	case "tparam", "named", "imported":
+		return false
+	}
+	return false
+}
+
 func PtrT(e *Ty) *Ty {
-	t := &Ty{FK: "ptr", Src: "*" + e.Src, Conc: "*" + e.Conc, Gen: "lwPtrOf(" + e.Gen + ")", Cmp: true, Faithful: e.Faithful, JSONOK: e.JSONOK, TagRule: "omit", IsPtr: true}
+	// a non-nil pointer to a null-encoding value decodes as a nil pointer: not faithful
+	t := &Ty{FK: "ptr", Src: "*" + e.Src, Conc: "*" + e.Conc, Gen: "lwPtrOf(" + e.Gen + ")", Cmp: true, Faithful: e.Faithful && !e.Nullable(), JSONOK: e.JSONOK, TagRule: "omit", IsPtr: true}
 	return t.merge(e)
 }
 
@@ -218,8 +230,6 @@ func MapT(k, v *Ty) *Ty {
 		Faithful: k.Faithful && v.Faithful && (k.Conc == "string" || k.Conc == "MyStr"), JSONOK: v.JSONOK && (k.Conc == "string" || k.Conc == "MyStr" || k.FK == "basic" && !strings.HasPrefix(k.Conc, "float") && !strings.HasPrefix(k.Conc, "complex") && k.Conc != "bool"), TagRule: "omit"}
 	return t.merge(k, v)
 }
-
-var fnCounter int
 
 // FuncT is a func type; params/results are given as already-built types. named results
 // and parameter names are part of the spelling (AllKindTypes has both).
@@ -372,16 +382,14 @@ func AnonT(embedEmpty bool, names []string, tys []*Ty) *Ty {
 // StructRefT refers to another annotated struct of the same package (its canonical
 // instantiation when it is generic).
 func StructRefT(s *Struct) *Ty {
-	faithful, jsonok, cmp := s.Ann["@fp.Json"], true, true
+	faithful, jsonok, cmp := s.Ann["@fp.Json"] && s.Ann["@fp.Value"], true, true
 	for _, f := range s.Fields {
-		if !f.Ty.Faithful && f.Applicable() {
+		if f.Applicable() && !f.Ty.Faithful {
 			faithful = false
 		}
-		if f.Name == "_" || !f.Applicable() {
-			// `_`-fields and unexported skipped fields do not survive JSON
-			if f.Name != "_" && !(f.Embedded) {
-				faithful = false
-			}
+		if !f.Applicable() && !(f.Embedded && f.EmptyEmb) {
+			// state in `_`-fields does not survive JSON
+			faithful = false
 		}
 		if !f.Ty.JSONOK {
 			jsonok = false
@@ -389,10 +397,6 @@ func StructRefT(s *Struct) *Ty {
 		if !f.Ty.Cmp {
 			cmp = false
 		}
-	}
-	if !s.Ann["@fp.Json"] {
-		// without generated marshalers encoding/json sees no exported fields: still "ok", not faithful
-		faithful = false
 	}
 	src := s.Name
 	if len(s.TParams) > 0 {
@@ -402,14 +406,9 @@ func StructRefT(s *Struct) *Ty {
 		}
 		src += "[" + strings.Join(as, ", ") + "]"
 	}
-	t := &Ty{FK: "structref", Src: src, Conc: src, Gen: fmt.Sprintf("lwG[%s](lwGen_%s)", src, s.Name), Cmp: cmp, Faithful: faithful, JSONOK: jsonok, TagRule: "plain", Imports: nil}
+	t := &Ty{FK: "structref", Src: src, Conc: src, Gen: fmt.Sprintf("lwG[%s](lwGen_%s)", src, s.Name), Cmp: cmp, Faithful: faithful, JSONOK: jsonok, TagRule: "plain"}
 	for _, p := range s.TParams {
 		t.merge(p.Inst)
-	}
-	for _, f := range s.Fields {
-		// the input package needs the imports of the instantiation arguments only, but the
-		// law test needs the declarations of the generators
-		_ = f
 	}
 	return t
 }
